@@ -9,6 +9,7 @@ from .. import gens
 from ..harness import Sub, Violation
 
 QUICK_SCALE = 10  # quick budgets below are multiplied by this (kept at about half a minute on 8 processes)
+THOROUGH_SCALE = 20  # thorough budgets below are multiplied by this (about ten minutes on 16 processes)
 
 RULE = ("fitted Douglas models: d in [1,4], feature masks with >=1 used feature (or None), n_cuts in [1,4], temperatures "
         "1e-4..10, any GEMINI name; after fit the cut points are overwritten in place by drawn, distinct, unsorted values "
